@@ -43,6 +43,16 @@ Close ==
     /\ IF MaxStreams = 1 THEN alive' = FALSE /\ closedBy' = "client" ELSE UNCHANGED << alive, closedBy >>
     /\ UNCHANGED << opened, listenStart, now >> /\ Op("Close")
 
+\* the tunnels of the requests in progress end on the ENDPOINT's side (their idle timer expired, the
+\* destination failed): the requests are over; an HTTP/1.1 session is its single request and ends with
+\* it - the client's connection is closed and the session's task is gone (C14: "the sockets and tasks of
+\* that connection are released"); an HTTP/2 session goes on
+FailAll ==
+    /\ alive /\ active > 0
+    /\ active' = 0
+    /\ IF MaxStreams = 1 THEN alive' = FALSE /\ closedBy' = "endpoint" ELSE UNCHANGED << alive, closedBy >>
+    /\ UNCHANGED << opened, listenStart, now >> /\ Op("FailAll")
+
 \* a tick passes; if the listener timer expires in it, it closes an idle session and is re-armed
 \* (at the instant it expired) on a session with requests in progress
 Tick ==
@@ -54,7 +64,7 @@ Tick ==
             ELSE UNCHANGED << listenStart, alive, closedBy >>
     /\ UNCHANGED << active, opened >> /\ Op("Tick")
 
-Next == Open \/ Close \/ Tick
+Next == Open \/ Close \/ FailAll \/ Tick
 Spec == Init /\ [][Next]_vars
 
 \* a session is never ended by the listener timer while a request is in progress
